@@ -222,7 +222,7 @@ static void reseterror(qaconf_t *qaconf);
 static void free_(qaconf_t *qaconf);
 
 static int _parse_inline(qaconf_t *qaconf, FILE *fp, uint8_t flags,
-                         enum qaconf_section sectionid,
+                         uint64_t sectionid,
                          qaconf_cbdata_t *cbdata_parent);
 static void _seterrmsg(qaconf_t *qaconf, const char *format, ...);
 static void _free_cbdata(qaconf_cbdata_t *cbdata);
@@ -618,7 +618,7 @@ static void free_(qaconf_t *qaconf) {
 #define ARGV_INCR_STEP  (8)
 #define MAX_TYPECHECK   (5)
 static int _parse_inline(qaconf_t *qaconf, FILE *fp, uint8_t flags,
-                         enum qaconf_section sectionid,
+                         uint64_t sectionid,
                          qaconf_cbdata_t *cbdata_parent) {
     // Assign compare function.
     int (*cmpfunc)(const char *, const char *) = strcmp;
@@ -629,7 +629,7 @@ static int _parse_inline(qaconf_t *qaconf, FILE *fp, uint8_t flags,
     bool doneloop = false;
     bool exception = false;
     int optcount = 0;  // number of option entry processed.
-    int newsectionid = 0;  // temporary store
+    uint64_t newsectionid = 0;  // temporary store
     void *freethis = NULL;  // userdata to free
     while (doneloop == false && exception == false) {
 
